@@ -455,6 +455,8 @@ func typedOK(cfg *config.Config, keys []string) bool {
 		v := cfg.Get(k)
 		ok = ok && cfg.String(k) == cast.ToString(v) && cfg.Int(k) == cast.ToInt(v) && cfg.Bool(k) == cast.ToBool(v) &&
 			cfg.Float64(k) == cast.ToFloat64(v) && cfg.Int64(k) == cast.ToInt64(v)
+		_, gerr := config.GetE[string](cfg, k)
+		ok = ok && (gerr != nil) == (v == nil) // GetE fails exactly when the key is absent (or nil), never for a falsy value
 		if v == nil {
 			ok = ok && cfg.StringOr(k, "dflt") == "dflt" && cfg.IntOr(k, 4242) == 4242 && cfg.BoolOr(k, true) &&
 				cfg.Float64Or(k, 2.5) == 2.5 && config.GetOr(cfg, k, 77) == 77 && config.Get[string](cfg, k) == ""
@@ -462,7 +464,8 @@ func typedOK(cfg *config.Config, keys []string) bool {
 			ok = ok && cfg.StringOr(k, "dflt") == cast.ToString(v) && cfg.IntOr(k, 4242) == cast.ToInt(v) &&
 				cfg.BoolOr(k, true) == cast.ToBool(v) && cfg.Float64Or(k, 2.5) == cast.ToFloat64(v)
 			if iv, isInt := v.(int); isInt {
-				ok = ok && config.GetOr(cfg, k, 77) == iv && config.Get[int](cfg, k) == iv
+				ge, eerr := config.GetE[int](cfg, k)
+				ok = ok && config.GetOr(cfg, k, 77) == iv && config.Get[int](cfg, k) == iv && eerr == nil && ge == iv
 			}
 			if sv, isStr := v.(string); isStr {
 				ok = ok && config.GetOr(cfg, k, "d") == sv
